@@ -50,6 +50,7 @@ type tupleRec struct {
 	TRes      int         `json:"tuples_resource"`
 	TFatal    int         `json:"tuples_fatal"`
 	OpCases   []int       `json:"operator_cases_std"`
+	Sweep     int         `json:"sweep_tuples"`
 }
 
 type agg struct {
@@ -582,7 +583,7 @@ func main() {
 	extra["tlc"] = map[string]interface{}{"states": res.Distinct, "records": res.Records}
 	extra["universe"] = map[string]interface{}{"values": len(u.Values), "operators": len(u.Operators), "programs": len(u.Programs["std"]),
 		"tuples_std": len(u.Tuples["std"]), "tuples_resource": len(u.Tuples["resource"]), "tuples_fatal": len(u.Tuples["fatal"]), "sampled_triples": nSample,
-		"tuples_std_arity_le2_by_tlc": meta.TStd, "method_pair_stride": env.Pick(10, 1)}
+		"tuples_std_arity_le2_by_tlc": meta.TStd, "boundary_sweep_tuples": meta.Sweep, "method_pair_stride": env.Pick(10, 1)}
 	extra["callables"] = map[string]interface{}{"total": len(calls), "in_builtins": nBuiltin, "excluded_by_name": u.Excluded}
 	extra["outcomes"] = map[string]int64{"value": a.values, "exception": a.exceptions}
 	extra["exception_classes"] = a.excClasses
